@@ -3,6 +3,7 @@
 use std::io::{self, BufRead, Write};
 use std::panic;
 
+mod consts;
 mod proto;
 use proto::*;
 
@@ -94,6 +95,10 @@ fn run_line(line: &str) -> String {
 }
 
 fn main() {
+    if std::env::args().nth(1).as_deref() == Some("--consts") {
+        consts::main();
+        return;
+    }
     if std::env::args().nth(1).as_deref() == Some("--one-sched") {
         chan_now::sched_child_main();
         return;
